@@ -110,7 +110,12 @@ def run(ctx):
     ctx.sample({"input": bs[0]["inputs"][0], "row": bs[0]["rows"][0] if bs[0]["rows"] else None})
     ctx.sample({"input": gs[0]["inputs"][0], "row": gs[0]["rows"][0] if gs[0]["rows"] else None})
     pipe.eval_pipeline_cases(ctx, bs + gs, "c03")
-    # H2 (inserted water alone never balances): the model's water step on every admitted reaction of every batch
+    h2_check(ctx, bs + gs, "c03h2")
+
+
+def h2_check(ctx, batches, name):
+    """oracle fact H2 (inserted water alone never balances a reaction): the model's water step, with the recorded composition
+    tables, on every admitted reaction of every batch -- evaluated inside Coq"""
     H2_HDR = pipe.PIPE_HDR.replace("Model.Pipeline ", "Model.Pipeline Proofs.Balanced ")
     H2_DEFS = pipe.PIPE_DEFS + """
 Definition h2case (o : oracles) (s : string) : bool :=
@@ -118,7 +123,7 @@ Definition h2case (o : oracles) (s : string) : bool :=
   let w := rb_water o r in implb (bal o (rxn w)) (String.eqb (rxn w) (rxn r)).
 """
     exprs, meta = [], []
-    for b in bs + gs:
+    for b in batches:
         if b["conflicts"]:
             continue
         try:
@@ -128,7 +133,7 @@ Definition h2case (o : oracles) (s : string) : bool :=
         except (TypeError, ValueError):
             pass
     sh("timeout 900 make -j%d Proofs/Balanced.vo 2>&1" % NPROC, cwd=COQ)
-    bad, errors = eval_cases("c03h2", H2_HDR, H2_DEFS, exprs, ctx.work, shard=8)
+    bad, errors = eval_cases(name, H2_HDR, H2_DEFS, exprs, ctx.work, shard=8)
     for fn, o in errors:
         ctx.broken.append({"what": "case file did not evaluate", "where": fn, "detail": o})
     for i in bad:
